@@ -80,7 +80,7 @@ CLAIMED = {
   "DESIGN.md section 7, C13"),
  "C15": (
   "Lean 4 theorems C15_* (33). Table level over the regenerated tables (substitutions unpadded, padded parts covered, tag tables consistent, short tags = C16's PEP 440 segments, README conversions). TREE level (Model/PepTree.lean mirrors _convert_to_pep440 step by step; Model/PepOfRecord.lean says which PEP 440 version a record denotes): the text written for {pep440_version} (a) is matched IN FULL by the derived search pattern and reads back with every part equal (C15_derived_accepts_own_rendering / _of_original, domain transfer C15_vok_transfer*), (b) is in the README's normal form (C15_normal_form_parts), (c) PARSES, with the model of the vendored PEP 440 parser, to exactly the version the record denotes — release numbers, pre/post/dev segment and number (C15_derived_parses, C15_derived_content), (d) parses to the SAME PepVersion as the version string itself, whatever zero padding, v prefix, '-' separator, long tag name or missing NUM the version pattern uses (C15_version_parses_equal, C15_version_key_equal), and (e) equals the PEP440 line of test/show up to normalisation (C15_equals_printed_pep440: str(parse_version(version)) = pepStr ver and parsePep (pepStr ver) = ver) — for every pattern tree with the decidable shape pepShaped and every record in the domain (vok, pepReady, pepCoherent; each hypothesis with a proved witness that it is necessary), and every README pattern is pepShaped (C15_readme_shaped, kernel-evaluated). PARTIAL only in that bumpver converts and renders by string surgery: tree = string pipeline is kernel-proved for the README patterns (C15_readme_tree_tie) and CHECKED per generated pattern by the driver op pep_tie; patterns outside pepShaped (mandatory TAG, odd separators) are the known finding F-C15-odd-shapes.",
-  "Trusted: Lean kernel + standard axioms; translator; the model of the vendored PEP 440 parser (tied to the code by C16's correspondence and to `packaging` by C16's oracle); the tokenizer tie tree <-> string surgery is checked per pattern. Patterns outside the README shapes: known finding F-C15-odd-shapes.",
+  "Trusted: Lean kernel + standard axioms; translator; the model of the vendored PEP 440 parser (tied to the code by C16's correspondence and to `packaging` by C16's oracle); the tokenizer tie tree <-> string surgery is proved for tokSafe trees (Props/C02Tie.lean: compile_tie, format_tie; 74 % of the derived PEP 440 trees of generated patterns) and checked per pattern by the driver op pep_tie otherwise. Patterns outside the README shapes: known finding F-C15-odd-shapes.",
   "Lean 4 proof: table facts by kernel evaluation; structural induction over pattern trees for acceptance, read-back, normal form; parser lemmas (digit runs, letter segments) for 'denotes the same PEP 440 version'; correspondence + packaging oracle for the string-level tie",
   "DESIGN.md section 7, C15"),
  "C08": (
@@ -89,8 +89,8 @@ CLAIMED = {
   "Lean 4 proof (invariant by induction over histories; refinement of C01/C09) + real-git history runs",
   "DESIGN.md section 7, C08"),
  "C02": (
-  "Lean 4 theorems C02_*. (1) TABLE TIE on the REGENERATED tables: every value a part can take is rendered (PART_FORMATS, classified from the formatter's Python AST) to text that the part's own regex (PART_PATTERNS, parsed by the model's regex-syntax parser) consumes in full — alone, before a non-digit continuation (maximal munch; longest alternative first is CHECKED) and, for fixed-width parts, before a digit — and that reads back as the same value: finite calendar domains by kernel evaluation over the whole domain, unbounded numeric parts and BUILD by induction on digit lists, years by the four-digit lemma, tags over the tag tables; cal_info's outputs lie inside those domains for EVERY valid date (C02_calinfo_domains) except week 53 (C02_week53_witness = known finding). (2) COMPOSITION over whole patterns, proved on the pattern tree for EVERY well-formed tree (any nesting of optional groups, any literal separators) and EVERY record in the domain of its rendered parts: C02_accepted_in_full (the first success of the compiled regex consumes the whole rendered text and captures exactly the rendered part texts), C02_roundtrip_ast / C02_roundtrip_of_date (read back through parse_field_values_to_vinfo/_to_cinfo with every part equal, all-zero groups omitted again, re-rendered byte for byte; calendar of any valid date), C02_tagCoh_invariant (the coherence hypothesis is preserved by reading and bumping). PARTIAL in one respect: bumpver compiles and renders by string surgery, not through a tree; tree = string pipeline is kernel-proved for the README patterns (C02_readme_tree_tie, C02_readme_patterns_wf) and CHECKED per generated pattern by the driver op ast_tie on every run (93 % of generated (pattern, record) pairs lie inside the theorems' domain; fixed-width parts directly followed by digits and week-only calendars are outside). Oracle on the implementation: render -> parse -> fields equal -> re-render identical -> next run accepts; thorough tier every date 2001..2099 through every calendar part.",
-  "Trusted: Lean kernel + standard axioms; translator (both tables, formatter shapes); Python re modelled on the fragment (tied by compile_search/re_search ops); the tokenizer tie tree <-> string surgery is checked per pattern, not proved in general. Week 53 under WW/0W/UU/0U: known finding F-C02-week53.",
+  "Lean 4 theorems C02_*. (1) TABLE TIE on the REGENERATED tables: every value a part can take is rendered (PART_FORMATS, classified from the formatter's Python AST) to text that the part's own regex (PART_PATTERNS, parsed by the model's regex-syntax parser) consumes in full — alone, before a non-digit continuation (maximal munch; longest alternative first is CHECKED) and, for fixed-width parts, before a digit — and that reads back as the same value: finite calendar domains by kernel evaluation over the whole domain, unbounded numeric parts and BUILD by induction on digit lists, years by the four-digit lemma, tags over the tag tables; cal_info's outputs lie inside those domains for EVERY valid date (C02_calinfo_domains) except week 53 (C02_week53_witness = known finding). (2) COMPOSITION over whole patterns, proved on the pattern tree for EVERY well-formed tree (any nesting of optional groups, any literal separators) and EVERY record in the domain of its rendered parts: C02_accepted_in_full (the first success of the compiled regex consumes the whole rendered text and captures exactly the rendered part texts), C02_roundtrip_ast / C02_roundtrip_of_date (read back through parse_field_values_to_vinfo/_to_cinfo with every part equal, all-zero groups omitted again, re-rendered byte for byte; calendar of any valid date), C02_tagCoh_invariant (the coherence hypothesis is preserved by reading and bumping). The tie between the tree and bumpver's STRING SURGERY (escape loop, `while True` bracket substitution, `_iter_part_patterns`, sort by (-end,-len), right-to-left substitution, `re.compile`; `_parse_segtree`, `_format_segment_tree`, `_format_segment`) is now PROVED IN GENERAL (Props/C02Tie.lean): compile_tie (compileRe (text p) = Pat.compile p), tokenize_tie, format_tie (formatVersion v (text p) = render v p) and C02_roundtrip_code (the round trip stated on formatVersion / parseVersionInfo themselves) for EVERY tree satisfying the decidable, local side condition tokSafe (literal text in the C07 language, no part name beginning at a literal or straddling a token, each field once, contained part names harmless); tie_needs_condition is the kernel-checked witness that a condition is needed (tree NUM·MM, text NUMMM). All 18 README patterns are tokSafe (C02Tie_readme_tokSafe) and the driver reports per run how many generated patterns are (quick tier: 1250 of 1250). Table facts the proof needs are `decide` obligations over the REGENERATED tables. Oracle on the implementation: render -> parse -> fields equal -> re-render identical -> next run accepts; thorough tier every date 2001..2099 through every calendar part.",
+  "Trusted: Lean kernel + standard axioms; translator (both tables, formatter shapes); Python re modelled on the fragment (tied by compile_search/re_search ops); the tokenizer tie tree <-> string surgery is proved under the decidable side condition tokSafe (Props/C02Tie.lean) and checked per pattern outside it. Week 53 under WW/0W/UU/0U: known finding F-C02-week53.",
   "Lean 4 proof: per part over regenerated tables (decide +kernel on whole domains, induction on digit lists) and structural induction over pattern trees with a list-of-successes regex semantics (composition, read-back) + correspondence + round-trip oracle",
   "DESIGN.md section 7, C02"),
  "C20": (
